@@ -73,17 +73,17 @@ type Enc struct {
 	ufDecls     []string
 	ufSeen      map[string]bool
 
-	obls     []*Obl
-	fresh    int
-	epochCtr int
-	nilLit   string
-	commuteKey  string
-	commuteSite int
-	commuteRefs []commuteRef
-	commuteMode bool
+	obls           []*Obl
+	fresh          int
+	epochCtr       int
+	nilLit         string
+	commuteKey     string
+	commuteSite    int
+	commuteRefs    []commuteRef
+	commuteMode    bool
 	commuteKeySort string
-	epochs   map[int]epochInfo
-	frameCtr int
+	epochs         map[int]epochInfo
+	frameCtr       int
 
 	assumptions map[string]bool // evidence: things assumed (external contracts, havocs, …)
 	callOrd     map[string]int
